@@ -304,7 +304,16 @@ func (g *schemaGen) fieldOptions(typ, label string) string {
 		}
 	}
 	if g.opts && rng.Chance(0.3) {
-		switch rng.Intn(5) {
+		switch rng.Intn(6) {
+		case 5:
+			// a value written as adjacent string literals, alone or among other entries
+			if rng.Bool() {
+				o = append(o, "(gen.frep) = 3")
+			}
+			o = append(o, `(gen.fstr) = "first half, " 'second half'`+[]string{"", ` "third"`}[rng.Intn(2)])
+			if rng.Bool() {
+				o = append(o, "(gen.fopt).a = 2")
+			}
 		case 0:
 			o = append(o, "(gen.fopt) = "+g.msgLiteral(2))
 		case 1:
